@@ -2851,7 +2851,7 @@ int EGLPNUM_TYPENAME_ILLsimplex_pivotin (
 	*basis_mod = 0;
 	if (rcnt <= 0)
 	{
-		EG_RETURN (rval);
+		goto DONE;									/* the numbers initialized above own memory */
 	}
 
 	if (pivot_opt == SIMPLEX_PIVOTINROW)
@@ -2878,7 +2878,7 @@ int EGLPNUM_TYPENAME_ILLsimplex_pivotin (
 		{
 			ILL_IFFREE(clist);
 		}
-		EG_RETURN (rval);
+		goto DONE;
 	}
 
 	/* QSlog("Forcing vars into basis in EGLPNUM_TYPENAME_ILLsimplex_pivotin"); */
@@ -2987,6 +2987,7 @@ CLEANUP:
 
 	EGLPNUM_TYPENAME_ILLsvector_free (&wz);
 	EGLPNUM_TYPENAME_ILLsvector_free (&updz);
+DONE:
 	EGLPNUM_TYPENAME_EGlpNumClearVar (alpha);
 	EGLPNUM_TYPENAME_EGlpNumClearVar (fi.totinfeas);
 	EGLPNUM_TYPENAME_EGlpNumClearVar (rs.tz);
